@@ -185,10 +185,15 @@ def validate(rep, pid, scen, obs, label, info=1, refs=None, fields=None, kindfn=
     return nm
 
 
-def event_traces(rep, pid, scen, label, config='default'):
+def start_mc_inputloop():
+    """Model checking of ScpiInputLoop in the background (it does not depend on the executions)."""
+    ex = concurrent.futures.ThreadPoolExecutor(max_workers=1)
+    return ex.submit(lib.tlc, 'MCInputLoop', 'MCInputLoop.cfg', 6, None, 1200, None, None, (), '6g')
+
+def event_traces(rep, pid, scen, label, config='default', mc=None):
     """Trace validation proper: hook events of the real library for each scenario must be a behaviour of
     ScpiInputLoop.tla (TVInputLoop). Returns number of rejected traces that are not the known deviation."""
-    r0 = lib.tlc('MCInputLoop', 'MCInputLoop.cfg', timeout=1200, xmx='6g')
+    r0 = mc.result() if mc is not None else lib.tlc('MCInputLoop', 'MCInputLoop.cfg', timeout=1200, xmx='6g')
     rep.add_tlc('MCInputLoop', r0, 'model checking of the input-loop state machine: TypeOK (bounds), PathEmptyAtMessageStart, and under fairness Returns (every input call returns)')
     if r0.violations:
         rep.broken.append('ScpiInputLoop violates %s' % r0.violations)
